@@ -459,6 +459,38 @@ func matchPos(got bits.Vec, spec []specBit, pb *posBind) (bool, string) {
 
 // readerField checks every non-zero store to recv.<field> in m against the allowed patterns and
 // requires each pattern to be used by at least one store. Patterns within one call share pb.
+// helperResultVecs: when v is (an element of) the result of a call to a function of the module, the
+// vectors that function returns for that result on its success returns; nil otherwise.
+func helperResultVecs(p *core.Program, v ssa.Value) []bits.Vec {
+	idx := 0
+	var call *ssa.Call
+	switch x := v.(type) {
+	case *ssa.Extract:
+		idx = x.Index
+		call, _ = x.Tuple.(*ssa.Call)
+	case *ssa.Call:
+		call = x
+	case *ssa.Convert:
+		return helperResultVecs(p, x.X)
+	}
+	if call == nil {
+		return nil
+	}
+	g := call.Call.StaticCallee()
+	if g == nil || !core.InModule(g) || len(g.Blocks) == 0 {
+		return nil
+	}
+	sub := bits.Run(p, g)
+	var out []bits.Vec
+	for _, rs := range sub.Returns {
+		if !successReturn(rs) || idx >= len(rs.Results) {
+			continue
+		}
+		out = append(out, rs.Results[idx])
+	}
+	return out
+}
+
 func readerField(c *Ctx, rule string, m *bits.Machine, fname, field string, patterns []string, pb *posBind) int {
 	p := c.Prog
 	used := make([]bool, len(patterns))
@@ -482,6 +514,36 @@ func readerField(c *Ctx, rule string, m *bits.Machine, fname, field string, patt
 		n++
 		matched := false
 		var why string
+		// a value produced by a helper function (id, n, err := parsePictureID(buf)): the forms are the
+		// helper's returned vectors, positions relative to the slice it was given
+		opaque := false
+		for _, b := range st.Val {
+			if b.K == bits.Top || strings.HasPrefix(b.Src, "call:") {
+				opaque = true
+			}
+		}
+		if cands := helperResultVecs(p, st.Instr.Val); opaque && len(cands) > 0 {
+			all := true
+			for _, cv := range cands {
+				if v, isC := cv.ConstVal(); isC && v == 0 {
+					continue
+				}
+				one := false
+				for i, sp := range specs {
+					if ok, _ := matchPos(cv, sp, newPosBind()); ok {
+						one, used[i] = true, true
+						break
+					}
+				}
+				if !one {
+					all = false
+					why = "a value returned by the helper matches no form: " + cv.String()
+				}
+			}
+			c.R.Add(rule, fname, fmt.Sprintf("field %s decoded per table (%s)", field, strings.Join(patterns, " | ")), p.Position(st.Instr.Pos()), all,
+				fmt.Sprintf("stored %s: %s", st.Val, why))
+			continue
+		}
 		for i, sp := range specs {
 			trial := &posBind{root: map[string]string{}, idx: map[string][2]string{}}
 			for k, v := range pb.root {
